@@ -1670,6 +1670,22 @@ func classifyResult(w *World, h *ssa.Function, at ssa.Instruction, v ssa.Value, 
 	// dominated by an edge that makes v non-nil / false ⇒ failure return
 	blk := at.Block()
 	for _, ea := range dominatingAtoms(blk) {
+		// v == sentinel (a package-level error variable) implies v != nil
+		if wantNil && ea.Kind == "cmp" && ea.Op == token.EQL {
+			hit := false
+			for _, pair := range [][2]ssa.Value{{ea.X, ea.Y}, {ea.Y, ea.X}} {
+				if sameValue(pair[0], v) {
+					if u, ok := pair[1].(*ssa.UnOp); ok {
+						if _, isG := u.X.(*ssa.Global); isG {
+							hit = true
+						}
+					}
+				}
+			}
+			if hit {
+				return nil
+			}
+		}
 		if ea.V == nil {
 			continue
 		}
@@ -1724,6 +1740,22 @@ func classifyResult(w *World, h *ssa.Function, at ssa.Instruction, v ssa.Value, 
 			return nil
 		}
 		if cf := staticCallee(c); cf != nil && cf.Blocks != nil {
+			// an error-mapping helper that never answers nil (every return is a sentinel, a wrapped or a
+			// known non-nil error) makes this a failure return
+			if wantNil && cf != h && depth < 3 && !w.neverBusy[cf] {
+				if w.neverBusy == nil {
+					w.neverBusy = map[*ssa.Function]bool{}
+				}
+				w.neverBusy[cf] = true
+				sp := successPoints(w, cf)
+				delete(w.neverBusy, cf)
+				res := cf.Signature.Results()
+				if len(sp) == 0 && res.Len() > 0 && types.Identical(res.At(res.Len()-1).Type(), errorType) {
+					if ex, isEx := v.(*ssa.Extract); !isEx || ex.Index == res.Len()-1 {
+						return nil
+					}
+				}
+			}
 			return []successPoint{{at: at, viaCallee: cf, val: v, wantNil: wantNil}}
 		}
 	}
